@@ -173,6 +173,9 @@ SUMMARIES = {
     "std::slice::iter": IDENT, "core::slice::iter": IDENT, "slice::iter": IDENT,
     "std::slice::iter_mut": IDENT, "slice::iter_mut": IDENT,
     "std::vec::Vec::iter": IDENT,
+    "serde_json::Map::iter": IDENT,
+    "serde_json::Map::values": [((ELEM,), 0, (ELEM, F1))],
+    "serde_json::Map::keys": [((ELEM,), 0, (ELEM, F0))],
     "std::collections::HashMap::iter": IDENT,
     "std::collections::HashMap::iter_mut": IDENT,
     "std::collections::BTreeMap::iter": IDENT,
@@ -208,6 +211,8 @@ SUMMARIES = {
     "std::slice::first": [((SOME, F0), 0, (ELEM,))], "slice::first": [((SOME, F0), 0, (ELEM,))],
     "std::slice::last": [((SOME, F0), 0, (ELEM,))], "slice::last": [((SOME, F0), 0, (ELEM,))],
     "slice::get": [((SOME, F0), 0, (ELEM,))],
+    "core::slice::first": [((SOME, F0), 0, (ELEM,))], "core::slice::last": [((SOME, F0), 0, (ELEM,))],
+    "core::slice::iter": IDENT,
     # Option / Result plumbing
     "std::ops::Try::branch": lambda t: (
         [((CONT, F0), 0, (SOME, F0))] if (t.get("arg_tys") or [""])[0].startswith("std::option::Option")
